@@ -9,7 +9,8 @@ from .. import fileio as fio
 from . import c08
 
 THEOREMS = ["session_form", "foldStats_flatten", "C04_stats", "C04_bytes", "C04_empty", "C04_after_done",
-            "C04_done_after_evlrs", "C04_done_after_close", "C04_wrong_format"]
+            "C04_done_after_evlrs", "C04_done_after_close", "C04_wrong_format",
+            "tuple_fields_known", "eq_compares_every_field", "dimEq_eq", "C04_format_identity", "C04_accepted_same_length", "C04_format_refl", "D04_old_equality_conflates"]
 hx = c08.hx
 
 
@@ -314,6 +315,45 @@ def run(ck):
                 ck.fail(f"a refused write_points ({label}, after '{how}') changed the destination", inp)
         if how != "close":
             w.close()
+    # ---- what "another point format" means: PointFormat.__eq__ == the model's equality (generated attribute list and pairing), and a
+    # writer refuses exactly the records whose format differs from its own in any respect
+    from .. import formateq as fe
+    for label, ia, pa, ib, pb in fe.pairs(ck.rng, 30 if q else 600):
+        fa, fb = fe.build(ia, pa), fe.build(ib, pb)
+        inp = {"kind": "format_identity", "label": label, "ids": [ia, ib], "file_dims": [f"{p.name}:{p.type}" for p in pa], "record_dims": [f"{p.name}:{p.type}" for p in pb]}
+        ck.case(("format_identity", label, ia, ib, str(inp["file_dims"]), str(inp["record_dims"])), nontrivial=True)
+        ck.count("format_identity:" + label)
+        live = fa == fb
+        lines.append(fe.eq_line(fa, fb))
+        meta.append((inp, "1" if live else "0"))
+        # independent description of the two formats: id, and per extra dimension name, numpy dtype (element type and count), description, scaling
+        def desc(pf):
+            return (pf.id, [(d.name, str(d.dtype), d.description, None if d.scales is None else [float(x) for x in d.scales],
+                             None if d.offsets is None else [float(x) for x in d.offsets]) for d in pf.extra_dimensions])
+        same = desc(fa) == desc(fb)
+        minor = 4 if max(ia, ib) >= 6 else 2
+        hdr = laspy.LasHeader(point_format=fa, version=f"1.{minor}")
+        rec = laspy.PackedPointRecord.zeros(2, fb)
+        buf = io.BytesIO()
+        w = LasWriter(buf, hdr, closefd=False)
+        before = buf.getvalue()
+        try:
+            w.write_points(rec)
+            outcome = "accepted"
+        except LaspyException:
+            outcome = "refused"
+        except Exception as e:
+            outcome = type(e).__name__
+        if same and outcome != "accepted":
+            ck.fail(f"records of the writer's own point format ({label}) were not accepted: {outcome}", inp)
+        if not same and outcome != "refused":
+            ck.fail(f"records of another point format ({label}: file {inp['file_dims']} / records {inp['record_dims']}, ids {ia}/{ib}) were {outcome} by the writer", inp)
+        if not same and buf.getvalue() != before:
+            ck.fail(f"a refused chunk ({label}) changed the destination", inp)
+        try:
+            w.close()
+        except Exception:
+            pass
     out = ck.driver(lines)
     bad = None
     if out is None or len(out) != len(lines):
